@@ -253,7 +253,7 @@ fn run(ctx: &mut Ctx) {
         get(*r, &mut cache);
     }
     // ---- slot / calibration comparison
-    let n = ctx.tier.pick(420, 12_000);
+    let n = ctx.tier.pick(420, 60_000);
     ctx.cases("events", n, |ctx, i, rng| {
         let run = match i % 10 {
             0..=6 => good_runs[(i % 7) as usize],
@@ -304,7 +304,7 @@ fn run(ctx: &mut Ctx) {
         FRESH.with(|f| f.set(false));
     });
     // ---- injected inconsistencies
-    let n = ctx.tier.pick(160, 4000);
+    let n = ctx.tier.pick(160, 20_000);
     ctx.cases("injections", n, |ctx, i, rng| {
         let run = *rng.pick(&[u32::MAX, 9500, 10418, 11500]);
         get(run, &mut cache);
@@ -576,7 +576,7 @@ fn run(ctx: &mut Ctx) {
     });
     // ---- history independence: the same banks under run A, then under run B on the other side of the pad-map
     // re-arrangement (and back): every build is still compared slot by slot with the oracle of *its* run
-    ctx.cases("run-history", ctx.tier.pick(32, 400), |ctx, i, rng| {
+    ctx.cases("run-history", ctx.tier.pick(32, 1000), |ctx, i, rng| {
         let seq: Vec<u32> = match i % 4 {
             0 => vec![u32::MAX, 11084, u32::MAX, 9500, 11084],
             1 => vec![9500, 10418, 9500, 12000],
